@@ -69,6 +69,8 @@ func (g *G) notaryRequest() *payload.P2PNotaryRequest {
 func (g *G) message(sr bool) *network.Message {
 	inner := newG(g.r)
 	inner.allowInvalid = false
+	// a payload generator may still step over a cap on purpose (2001 headers): the message is then not valid either
+	defer func() { g.invalid = g.invalid || inner.invalid }()
 	switch g.r.Intn(16) {
 	case 0:
 		return network.NewMessage(network.CMDVerack, payload.NewNullPayload())
